@@ -27,6 +27,10 @@ Definition http_validate (c : http_cfg) : http_cfg :=
      h_def_nw := dflt (h_def_nw c) 50;
      h_max_scrape := dflt (h_max_scrape c) 50 |}.
 
+(* every governed value is positive *)
+Definition http_ok (c : http_cfg) : Prop :=
+  0 < h_read c /\ 0 < h_write c /\ 0 < h_idle c /\ 0 < h_max_nw c /\ 0 < h_def_nw c /\ 0 < h_max_scrape c.
+
 (* ---------------------------------------------------------------- UDP *)
 (* max_clock_skew is not governed by Validate (DESIGN 9.B-9): carried through *)
 Record udp_cfg := { u_key : bytes; u_skew : Z;
@@ -41,6 +45,9 @@ Definition udp_validate (gen : bytes) (c : udp_cfg) : udp_cfg :=
      u_def_nw := dflt (u_def_nw c) 50;
      u_max_scrape := dflt (u_max_scrape c) 50 |}.
 
+Definition udp_ok (c : udp_cfg) : Prop :=
+  u_key c <> [] /\ 0 < u_max_nw c /\ 0 < u_def_nw c /\ 0 < u_max_scrape c.
+
 (* ---------------------------------------------------------------- memory store *)
 Record mem_cfg := { m_gc : Z; m_prom : Z; m_life : Z; m_shards : Z }.
 
@@ -49,6 +56,10 @@ Definition mem_validate (c : mem_cfg) : mem_cfg :=
      m_prom := dflt (m_prom c) second;
      m_life := dflt (m_life c) (30 * minute);
      m_shards := if (m_shards c <=? 0) || (m_shards c >? max_int64 / 2) then 1024 else m_shards c |}.
+
+(* intervals positive, shard count positive and doublable without overflow *)
+Definition mem_ok (c : mem_cfg) : Prop :=
+  0 < m_gc c /\ 0 < m_prom c /\ 0 < m_life c /\ 0 < m_shards c /\ 2 * m_shards c <= max_int64.
 
 (* New: make([]*peerShard, cfg.ShardCount*2); the product is an int *)
 Definition mem_shard_slots (c : mem_cfg) : Z := to_int64 (wrap64 (m_shards (mem_validate c) * 2)).
@@ -68,22 +79,24 @@ Definition redis_validate (c : redis_cfg) : redis_cfg :=
      r_write := dflt (r_write c) (15 * second);
      r_connect := dflt (r_connect c) (15 * second) |}.
 
+Definition redis_ok (c : redis_cfg) : Prop :=
+  r_broker c <> [] /\ 0 < r_gc c /\ 0 < r_prom c /\ 0 < r_life c /\
+  0 < r_read c /\ 0 < r_write c /\ 0 < r_connect c.
+
 (* strconv.Atoi (base 10, optional sign, at least one digit, int64 range) *)
 Definition is_digit (c : Z) : bool := (48 <=? c) && (c <=? 57).
 Definition dec_val (ds : bytes) : Z := fold_left (fun acc c => acc * 10 + (c - 48)) ds 0.
+(* the digits after an optional sign; whether the sign is '-' *)
+Definition atoi_digits (s : bytes) : bytes :=
+  match s with c :: r => if (c =? 45) || (c =? 43) then r else s | [] => [] end.
+Definition atoi_neg (s : bytes) : bool :=
+  match s with c :: _ => c =? 45 | [] => false end.
 Definition atoi (s : bytes) : option Z :=
-  let '(neg, ds) := match s with
-                    | 45 :: r => (true, r)
-                    | 43 :: r => (false, r)
-                    | _ => (false, s)
-                    end in
-  match ds with
-  | [] => None
-  | _ => if forallb is_digit ds then
-           let v := if neg then - dec_val ds else dec_val ds in
-           if (- 2 ^ 63 <=? v) && (v <=? max_int64) then Some v else None
-         else None
-  end.
+  let ds := atoi_digits s in
+  if nonempty ds && forallb is_digit ds then
+    let v := if atoi_neg s then - dec_val ds else dec_val ds in
+    if (- 2 ^ 63 <=? v) && (v <=? max_int64) then Some v else None
+  else None.
 
 (* strings.Split(path, "/"): the part before the first '/' and, if there is a
    '/', the part between the first and the second *)
